@@ -66,6 +66,10 @@ def run(ctx):
                                  r.getrandbits(62), 140000, 1.0, 1000.0, 3500, (r.choice([1, 1, 2]) if ind in BARS else 0), p + 1,
                                  meta={"ind": ind, "p": p, "regime": g, "band": 1.0, "n": 140000, "long": True}))
             k += 1
+    # K7 (b): the running sums of WMA drift on ordinary long streams too — WMA(2) on the saw-tooth regime in the band [1e6, 1e9]
+    # leaves tau after 95 057 inputs (known finding; seed-independent witness)
+    cases.append(GenCase("k7b_WMA_p2_r5", "WMA", (2, 0, 0, 0.0), 5, 12345, 140000, 1e6, 1e9, 3500, 0, 3,
+                         meta={"ind": "WMA", "p": 2, "regime": 5, "band": 1e6, "n": 140000, "long": True}))
     run_gen_harness(ctx.binary_release or ctx.binary, cases, "C13")
     res = coq_check_gen(cases, "C13", timeout=3000 if not ctx.thorough else 9000)
     viol = []
@@ -78,9 +82,11 @@ def run(ctx):
         code, j = divmod(t2x, 1000000)
         if code == 3:
             kk = c.cps[j - 1][0] if 0 < j <= len(c.cps) else -1
+            # WMA after tens of thousands of inputs without reset: the quadratic drift of its running sums (known finding K7)
+            key = {"indicator": "WMA", "class": "long-stream-drift"} if (c.ind == "WMA" and kk >= 50000) else None
             viol.append(Violation("%s(%d) regime %d band [%g, %g]: after %d inputs the output %s leaves tau(t)*maxmag of the from-scratch "
                                   "value of the current window" % (c.ind, c.params[0], c.gen, c.a, c.b, kk, c.cps[j - 1][1] if j else "?"),
-                                  case=c, detail={"checkpoint": j}))
+                                  case=c, detail={"checkpoint": j}, finding_key=key))
     if t1_bad:
         c = t1_bad[0]
         viol.append(Violation("correspondence T1 on long generated streams fails on %d of %d cases; first: %s (code %d: 1xxxxxx checkpoint, "
